@@ -517,6 +517,31 @@ func c06Replay(f map[string]string, evs []string, scale int) (string, bool) {
 				}
 			}
 			srv.mu.Unlock()
+		case "G":
+			// the server answers exchange <arg> with a frame that is no DNS message: a length below the 12-octet header
+			// (with or without that many octets behind it), or 20 octets whose section counts lie.  The exchange fails
+			// and the connection - whose stream position nobody knows any more - must never be used again
+			// (the model's abort: for the transport both are a failed read).
+			srv.mu.Lock()
+			for _, sc := range srv.conns {
+				hit := false
+				for _, m := range sc.owed {
+					hit = hit || m == arg
+				}
+				if sc.live() && hit && sc.mid < 0 {
+					sc.aborted = true
+					switch arg % 3 {
+					case 0:
+						sc.c.Write([]byte{0, 2, 0, 0})
+					case 1:
+						sc.c.Write(append([]byte{0, 20, byte(0x40 + arg>>8), byte(arg), 0x81, 0x80, 0xff, 0xff, 0xff, 0xff}, make([]byte, 12)...))
+					default:
+						sc.c.Write([]byte{0, 11, byte(0x40 + arg>>8), byte(arg), 0x81, 0x80, 0, 1, 0, 0, 0, 0, 0})
+					}
+					break
+				}
+			}
+			srv.mu.Unlock()
 		case "A", "AI":
 			if ev == "A" {
 				srv.mu.Lock()
